@@ -48,6 +48,15 @@ def make_docs(rng, n):
             pkg.embedded_style_map = "p.Normal => p.n\nr.Emph => em"
         data, parts = B.build(pkg)
         out.append((pkg, data, parts))
+    # list-heavy documents: the markdown writer keeps per-conversion list state (nesting, numbering) while it writes
+    from .c08 import rand_para, styles_part
+    for j in range(3):
+        pkg = gen_xml.Package()
+        pkg.styles = styles_part()
+        pkg.numbering = gen_xml.XGen(rng).numbering_part()
+        pkg.body = [rand_para(rng, k)[0] for k in range(150)]
+        data, parts = B.build(pkg)
+        out.append((pkg, data, parts))
     return out
 
 
@@ -56,6 +65,7 @@ def run(ctx):
     rng = ctx.rng
     ndocs = 40 if ctx.thorough else 12
     docs = make_docs(rng, ndocs)
+    ndocs = len(docs)
     jobs = [(i, k, fmt) for i in range(ndocs) for k in range(len(OPTION_SETS)) for fmt in ("html", "markdown")]
     dist = {"documents": ndocs, "jobs": len(jobs), "history_steps": 0, "thread_runs": 0, "hash_seeds": 0, "repeated_fileobj": 0}
     shared0 = snapshot_shared()
@@ -118,12 +128,18 @@ def run(ctx):
             if a != b or c != d2 or a != base[(i, 0, "html")] or not same:
                 fail("repeated calls on the same file object differ, or the file changed", {"api": "mammoth.convert_to_html(fileobj) twice", "document": i,
                                                                                               "package": gen_xml.pkg_json(docs[i][0])})
-    # ---- threads
-    for rnd in range(6 if ctx.thorough else 2):
+    # ---- threads (the interpreter is told to switch threads as often as it can)
+    import sys
+    old_interval = sys.getswitchinterval()
+    sys.setswitchinterval(1e-6)
+    for rnd in range(6 if ctx.thorough else 3):
         nthreads = 8
         barrier = threading.Barrier(nthreads)
         results = {}
-        my = [rng.sample(jobs, min(len(jobs), 40 if ctx.thorough else 15)) for _ in range(nthreads)]
+        heavy = [(i, 0, "markdown") for i in range(ndocs - 3, ndocs)] + [(i, 0, "html") for i in range(ndocs - 3, ndocs)]
+        my = [rng.sample(jobs, min(len(jobs), 40 if ctx.thorough else 12)) + heavy for _ in range(nthreads)]
+        for lst_ in my:
+            rng.shuffle(lst_)
 
         def work(t):
             barrier.wait()
@@ -141,6 +157,7 @@ def run(ctx):
                 fail("a conversion running concurrently with others in other threads gave a different result",
                      {"api": "mammoth.convert_to_%s in 8 threads" % fmt, "document": i, "options": OPTION_SETS[k], "package": gen_xml.pkg_json(docs[i][0])})
                 break
+    sys.setswitchinterval(old_interval)
     # ---- hash seeds: a child interpreter per seed converts the same files
     with A.Workdir() as wd:
         for i, (_, data, _) in enumerate(docs[:8]):
@@ -168,7 +185,7 @@ def run(ctx):
                 fail("results differ under PYTHONHASHSEED=%s" % seed, {"api": "child interpreter", "seed": seed, "stderr": p.stderr[-300:]})
     # ---- the pure model agrees with every baseline (so all of the above equal a mathematical function of bytes and options)
     terms, metas = [], []
-    for i in range(ndocs):
+    for i in range(ndocs - 3):
         for k in (0, 1, 2):
             opts = {"style_map": OPTION_SETS[k].get("style_map"), "include_default_style_map": OPTION_SETS[k].get("include_default_style_map", True),
                     "include_embedded_style_map": True, "ignore_empty_paragraphs": OPTION_SETS[k].get("ignore_empty_paragraphs", True),
